@@ -13,7 +13,7 @@ def strList (j : Json) : Except String (List String) := do
 
 def sortStrs (l : List String) : List String := (l.toArray.qsort (· < ·)).toList
 
-/-! second op: {"op":"meta","fn":"add_node"|"add_edge"|"compute"|"write_arrays",
+/-! second op: {"op":"meta","fn":"add_node"|"add_edge"|"compute"|"write_arrays"|"write_arrays_full" (+ "empty": bool),
   "axes": null | [[name, min|null, max|null]…], "node":[[id,dtype,varlen,unit|null]…], "edge":[…],
   "node_md":[[id,dtype,varlen]…], "edge_md":[…], "have": bool,
   "data": [[name, "absent"|"empty"| [lo, hi]]…]}
@@ -67,6 +67,9 @@ def handleMeta (j : Json) : Except String Json := do
   let nodeMd ← parsePropMds (← j.getObjVal? "node_md") false
   let edgeMd ← parsePropMds (← j.getObjVal? "edge_md") false
   let have_ ← (← j.getObjVal? "have").getBool?
+  let emptyG := match j.getObjVal? "empty" with
+    | .ok (.bool b) => b
+    | _ => false
   let dataL ← (← (← j.getObjVal? "data").getArr?).toList.mapM fun p => do
     let q ← p.getArr?
     if q.size != 2 then throw "data: [name, spec]"
@@ -98,6 +101,7 @@ def handleMeta (j : Json) : Except String Json := do
     | "add_node" => let r := addOrUpdatePropsMetadata h4 m nodeMd true; (r.1, some r.2)
     | "add_edge" => let r := addOrUpdatePropsMetadata h4 m edgeMd false; (r.1, some r.2)
     | "compute" => computeAndAddAxisMinMax h4 m data
+    | "write_arrays_full" => writeArraysFull h4 m nodeMd edgeMd have_ emptyG data
     | _ => writeArraysMeta h4 m nodeMd edgeMd have_ data
   let callerKept := decide (h'.take h4.length = h4)
   match res with
